@@ -68,6 +68,27 @@ def check_hugr(ctx: Ctx, focus: str, h, case, sig0: dict, expected_doc=None, for
         if diff:
             return bad("foreign document re-saved", "every node, edge (incl. order edges) and metadata preserved", diff,
                        "Load(ForeignWrite(s)) = Load(Serialize(s))")
+        # the specification's own serialization of the store (independent of this library's writer), once with explicit order
+        # offsets and once without: loading it must give the store's observable structure (links on the same ports, order ports
+        # included), whatever this library's writer would have produced
+        if expected_doc is not None:
+            for variant in ("explicit", "null"):
+                g = {k: v for k, v in d1.items() if k not in ("nodes", "edges", "metadata")}     # version / encoder header
+                g.update(expected_doc)
+                if variant == "null":
+                    g["edges"] = [[[e[0][0], None if e[0][1] == foreign_doc[e[0][0]][0] else e[0][1]],
+                                   [e[1][0], None if e[1][1] == foreign_doc[e[1][0]][1] else e[1][1]]] for e in expected_doc["edges"]]
+                errs = S.schema_errors(g)
+                if errs:
+                    raise MachineryError(f"model document is not schema-valid: {errs}")
+                try:
+                    hg = Hugr.load_json(json.dumps(g))
+                except Exception as e:  # noqa: BLE001
+                    return bad(f"loading the model's document ({variant} order offsets) raised", "a HUGR", repr(e)[:300], "Load(Serialize_spec(s))")
+                diff = S.same_structure(S.structure(h), S.structure(hg))
+                if diff:
+                    return bad(f"model document ({variant} order offsets) loaded", "the store's observable structure", diff,
+                               "SameUpToRenumbering(s, Load(Serialize_spec(s)))")
     return False
 
 
@@ -135,7 +156,7 @@ def run_store_states(ctx: Ctx, focus: str, quick: bool) -> None:
         if quick:
             confs = [(["a"], ["none"], 3, 2, 12), (["a", "call", "loadf", "loadc"], ["none"], 3, 1, 5)]
         else:
-            confs = [(["a", "const"], ["none", "m"], 3, 2, 6), (["a", "call", "loadf", "loadc", "const"], ["none", "m"], 3, 1, 3), (["a", "call"], ["none"], 4, 1, 10)]
+            confs = [(["a", "const"], ["none", "m"], 3, 2, 12), (["a", "call", "loadf", "loadc", "const"], ["none", "m"], 3, 1, 6), (["a", "call"], ["none"], 4, 1, 20)]
         for toks, metas, mn, ml, k in confs:
             small = c04.cfg(toks, metas, "OffsetsTwo", mn, ml, [1], False, 40, "CountsOne", emit=None, laws=False, samplek=k)
             res = run_tlc("MC_HugrSerial", small + "INVARIANT EmitSerial\n", wd, workers=1, heap="8g", line_sink=sink, timeout=2400)
